@@ -23,6 +23,10 @@ type Ob struct {
 
 // Ctx collects obligations for one property run.
 type Ctx struct {
+	// Degraded, when set, says why verdicts of this run cannot be trusted as
+	// violations (e.g. the FSM table is not in a form the extractor reads): Bad
+	// then records undecided obligations.
+	Degraded string
 	P        *Prog
 	Prop     string
 	Tier     string
@@ -56,7 +60,15 @@ func (c *Ctx) Triv(rule, key, site, detail string) {
 }
 
 // Bad records a violated obligation.
-func (c *Ctx) Bad(rule, key, site, detail string) { c.add(rule, key, site, "violated", detail, true) }
+func (c *Ctx) Bad(rule, key, site, detail string) {
+	if c.Degraded != "" {
+		// an input every rule of this property reads could not be understood: what
+		// looks like a violation may be an artefact of the partial reading
+		c.add(rule, key, site, "undecided", "not decidable ("+c.Degraded+"); would read: "+detail, false)
+		return
+	}
+	c.add(rule, key, site, "violated", detail, true)
+}
 
 // Stuck records an obligation the checker could not decide (unresolved
 // anchor, unsupported shape). It fails the run without a VIOLATION line.
